@@ -922,7 +922,6 @@ func genStress(r *hx.Rng, tier string, idx int) {
 	case 2:
 		mode, to = "short", 1
 	}
-	fmt.Printf("init mode=%s to=%d\n", mode, to)
 	rounds := 1
 	if mode != "long" {
 		rounds = 1 + r.Intn(3)
@@ -937,6 +936,32 @@ func genStress(r *hx.Rng, tier string, idx int) {
 	txs := 1 + r.Intn(12)
 	nodes := 1 + r.Intn(6)
 	base := r.Intn(1500)
+	if idx%6 == 5 {
+		// announcement storm with a follow-up: every peer that lost the race for the one request must be
+		// remembered as an announcer and get the transaction at its first poll after the time-out
+		stxs := 48 + r.Intn(48)
+		if tier == "thorough" {
+			stxs = 128 + r.Intn(256)
+		}
+		g := 2 + r.Intn(7)
+		fmt.Println("init mode=short to=1")
+		fmt.Printf("storm g=%d txs=%d base=%d kind=ann\n", g, stxs, 2000+r.Intn(1500))
+		order := make([]int, g)
+		for i := range order {
+			order[i] = i
+		}
+		for i := g - 1; i > 0; i-- {
+			j := r.Intn(i + 1)
+			order[i], order[j] = order[j], order[i]
+		}
+		for _, k := range order {
+			fmt.Println("adv")
+			fmt.Printf("poll node=%d max=100000\n", k+1)
+		}
+		fmt.Println("drain")
+		return
+	}
+	fmt.Printf("init mode=%s to=%d\n", mode, to)
 	if idx%3 == 2 { // every third stress script is a lock-step storm on fresh txids
 		stxs := 24 + r.Intn(40)
 		if tier == "thorough" {
